@@ -245,6 +245,10 @@ def sequence(rec, rng, cid, scratch):
         key = (str(path), enum)
         user = (int(rng.integers(0, 11)), "user%d" % rng.integers(3),
                 "comment %d" % rng.integers(1000))
+        if rng.random() < .25:
+            # empty user fields are values like any other (e.g. a comment
+            # that is withdrawn when the curve is rated again)
+            user = (user[0], "" if rng.random() < .3 else user[1], "")
         if key in stored and rng.random() < .5:
             op = "same-again"
             variant = stored[key][0]
